@@ -48,13 +48,17 @@ pub struct Coding {
 }
 
 fn size_line(rng: &mut Rng, n: usize, style: usize) -> Vec<u8> {
-    let mut s = match style % 4 {
+    let mut s = match style % 7 {
         0 => format!("{:x}", n),
         1 => format!("{:X}", n),
         2 => format!("0{:x}", n),
-        _ => format!("000{:X}", n),
+        3 => format!("000{:X}", n),
+        // zero-padded to 9, 16 and 20 digits (the longest line the decoder accepts)
+        4 => format!("{:09x}", n),
+        5 => format!("{:016X}", n),
+        _ => format!("{:020x}", n),
     };
-    match (style / 4) % 3 {
+    match (style / 7) % 3 {
         1 => s.push_str(";x=1"),
         2 => s.push_str(&format!(";{}", "e".repeat(rng.below(6)))),
         _ => {}
@@ -81,7 +85,12 @@ pub fn make_coding(rng: &mut Rng, sizes: &[usize], styles: &[usize], trailers: u
     }
     s.extend_from_slice(&size_line(rng, 0, last_style));
     for t in 0..trailers {
-        s.extend_from_slice(format!("T{}: v{}\r\n", t, t).as_bytes());
+        // trailer fields of every length: short ones and ones far longer than a size line may be
+        match (t + sizes.len()) % 3 {
+            0 => s.extend_from_slice(format!("T{}: v{}\r\n", t, t).as_bytes()),
+            1 => s.extend_from_slice(format!("Content-MD5-{}: Q2hlY2sgSW50ZWdyaXR5IQ==\r\n", t).as_bytes()),
+            _ => s.extend_from_slice(format!("Server-Timing: total;dur=12.5, db;dur={}{}\r\n", t, "9".repeat(40)).as_bytes()),
+        }
     }
     s.extend_from_slice(b"\r\n");
     s
@@ -199,9 +208,9 @@ pub fn c07(cx: &mut Ctx) {
         let mut r = cx.case("rnd");
         let k = r.below(5);
         let sizes: Vec<usize> = (0..k).map(|_| if r.chance(1, 12) { r.range(200, 70000) } else { r.range(1, 40) }).collect();
-        let styles: Vec<usize> = (0..3).map(|_| r.below(12)).collect();
+        let styles: Vec<usize> = (0..3).map(|_| r.below(21)).collect();
         let trailers = r.below(3);
-        let last_style = r.below(12);
+        let last_style = r.below(21);
         let coding = make_coding(&mut r, &sizes, &styles, trailers, last_style);
         let big = coding.len() > 2000;
         let total = coding.len() + NEXT.len();
